@@ -1043,8 +1043,39 @@ def check_C14(tier, seed):
                   assumptions=ASSUME_SESS)
 
 
+def c19_edit_sessions():
+    """a fault that an edit introduces while a stopped program could be continued: the program ran and stopped, a
+    line that is referenced (a GOTO target, a WEND) is deleted / replaced, then CONT, RETURN, NEXT, RUN, GOTO:
+    nothing of the program may execute any more"""
+    import ast as A
+    a = A.var("A")
+    out = []
+    progs = {
+        "goto": [A.line(10, A.pr(A.Str("S"), ";")), A.line(20, A.stop()), A.line(30, A.goto(50)), A.line(40, A.pr(A.Str("X"), ";")),
+                 A.line(50, A.pr(A.Str("E"), ";"))],
+        "wend": [A.line(10, A.pr(A.Str("S"), ";")), A.line(20, A.stop()), A.line(30, A.while_(A.bin_("lt", a, A.I(1)))),
+                 A.line(40, A.let(a, A.bin_("add", a, A.I(1)))), A.line(50, A.wend())],
+        "gosub": [A.line(10, A.gosub(40)), A.line(20, A.pr(A.Str("B"), ";")), A.line(30, A.end()), A.line(40, A.for_(A.var("I"), A.I(1), A.I(2))),
+                  A.line(45, A.stop()), A.line(50, A.next_(), A.ret())],
+    }
+    edits = {"delete": lambda n: A.line(n), "replace": lambda n: A.line(n, A.rem("gone")),
+             "insert": lambda n: A.line(n + 5, A.goto(999))}
+    victim = {"goto": 50, "wend": 50, "gosub": 20}
+    tails = {"cont": [A.direct(A.cont())], "return": [A.direct(A.ret())], "next": [A.direct(A.next_())],
+             "run": [A.direct(A.run())], "goto": [A.direct(A.goto(10))], "cont2": [A.direct(A.pr(a, ";")), A.direct(A.cont())]}
+    for pn, prog in progs.items():
+        for en, ed in edits.items():
+            if pn == "gosub" and en != "insert":
+                # deleting / replacing line 20 leaves the program well-formed: the stale frames still may not be resumed
+                pass
+            for tn, tail in tails.items():
+                out.append(A.session("C19e-%s-%s-%s" % (pn, en, tn), prog + [A.direct(A.run()), ed(victim[pn])] + tail
+                                     + [A.direct(A.list_())]))
+    return out
+
+
 def check_C19(tier, seed):
-    return mc_sess_check("C19", tier, seed, "MC_C19.tla",
+    return mc_sess_check("C19", tier, seed, "MC_C19.tla", extra_sessions=[("edits", c19_edit_sessions())],
         rule="three-line programs (line numbers of 1, 2 and 5 digits) with one injected fault -- a dangling line number in "
              "every referencing form and operand position, unmatched / crossed WHILE and WEND, token-level damage -- preceded "
              "on its line by nothing, an ASCII statement or multi-byte string literals, the fault on the first, second or "
@@ -1052,7 +1083,9 @@ def check_C19(tier, seed):
              "exactly the keyword) and NoRun (no program statement executes on RUN, GOTO n, GOSUB n, RUN n, CONT, ON..GOTO, "
              "PRINT:GOTO) on the specification; each session (RUN, LIST with underlines, direct statements, every way of "
              "entering the program) is executed by the real interpreter: codes, lines, character ranges and underline "
-             "ranges must equal the specified ones",
+             "ranges must equal the specified ones; plus sessions in which the fault is introduced by an edit (a referenced "
+             "line deleted, replaced, a dangling reference inserted) while a stopped program could be continued, followed "
+             "by CONT / RETURN / NEXT / RUN / GOTO",
         keep=lambda d: not d.get("oom"), vm_cfgs=[])
 
 
@@ -1110,6 +1143,11 @@ def lex_layouts():
             cases.append(body.replace("%s", gap))
             cases.append("30 " + body.replace("%s", gap))
             cases.append("30" + gap + body.replace("%s", gap))
+    # lines whose listed text is just below, at and just above the line limit (SAVE then LOAD)
+    for n in (1021, 1022, 1023, 1024, 1025):
+        cases.append("10 REM " + "x" * (n - 7))
+        cases.append("10 PRINT \"" + "a" * (n - 11) + "\"")
+        cases.append("65529 A=" + "1+" * ((n - 9) // 2) + "1")
     return [{"R": "lex", "x": [ord(c) for c in t]} for t in cases]
 
 
@@ -1328,7 +1366,8 @@ def check_C03(tier, seed):
     muts = ["".join(map(chr, c["x"])) for c in lex_mutations(seed + 5, 300 if quick else 5000)]
     st3 = shell_stage("C03", "soup", gen03.soup_sessions(seed, 150 if quick else 3000, lines + muts))
     st4 = shell_stage("C03", "reply", gen03.reply_sessions(2 if quick else 4))
-    return finish("C03", tier, seed, "model_checking", [st0, st0b, st1, st2, st3, st4], t0,
+    st5 = shell_stage("C03", "builtins", gen03.builtin_sessions())
+    return finish("C03", tier, seed, "model_checking", [st0, st0b, st1, st2, st3, st4, st5], t0,
                   rule="(1) TLC checks ProtocolSafe, CacheCoherent and the liveness property Converges (after one interrupt and no "
                        "further input the prompt is reached, under weak fairness of execute) on RuntimeShell, the "
                        "implementation-shaped model of the run states and of the terminal's calling protocol, and IntrConverges "
@@ -1337,7 +1376,9 @@ def check_C03(tier, seed):
                        "alive across edits, LOAD / RUN / SAVE requests (every run state reached), every string up to the bound "
                        "over the lexical alphabet entered as a line, byte / token soup up to 4096 bytes and damaged programs run "
                        "with interrupts and replies, every INPUT form with every reply up to the bound over the reply alphabet "
-                       "(quote, comma, blank, digit, letter, sign, point, ampersand, a non-ASCII letter); every API call is recorded with its event and a state probe and the call "
+                       "(quote, comma, blank, digit, letter, sign, point, ampersand, a non-ASCII letter), every built-in function and "
+                       "every statement that takes a number with boundary arguments (0, negatives, the 16-bit limits, huge and tiny "
+                       "floats, strings for numbers and numbers for strings); every API call is recorded with its event and a state probe and the call "
                        "trace must be a behaviour of RuntimeShell: a panic (caught) or a call that does not return within 3 s "
                        "has no counterpart and is reported with the input history",
                   assumptions=["the content of lines is opaque to the shell model (classified as long / empty / numbered / bare / "
